@@ -11,6 +11,10 @@ run(fn, pkg_dir, target, fault_at=None) executes fn() and returns a Trace:
                 call into repository / json code while the target is open for writing)
   .lines        for each event index the (file, function, line) executed  (fault-free runs only)
 
+granularity="ccall" counts the C-level calls made by repository code (sys.setprofile 'c_call' events: the dependency's
+verify(), hash update(), bytes.fromhex(), print() ...) and raises the fault at the k-th of them - the exception surfaces at
+the call site exactly as if the dependency had failed (MemoryError in OpenSSL, EPIPE in print, ...).
+
 granularity="opcode" counts and injects at every bytecode instruction instead of every source line (about ten times as
 many fault points: also between the evaluation of an argument and the call it feeds, inside expressions, ...).
 
@@ -84,7 +88,7 @@ def run(fn, pkg_dir, target, fault_at=None, keep_lines=False, granularity="line"
     def local(frame, event, arg):
         if granularity == "opcode":
             frame.f_trace_opcodes = True
-        if event == granularity and state["armed"]:
+        if event == granularity and state["armed"] and granularity != "ccall":
             state["n"] += 1
             tr.events = state["n"]
             if keep_lines:
@@ -110,9 +114,21 @@ def run(fn, pkg_dir, target, fault_at=None, keep_lines=False, granularity="line"
     ALLOWED_IN_WINDOW = {"write", "close", "__exit__", "__enter__", "flush", "getattr", "isinstance", "len", "fileno", "append",
                          "_getframe", "realpath", "fspath", "startswith", "get", "basename", "join", "extract_tb"}
 
+    cstate = {"n": 0}
+
     def profiler(frame, event, arg):
         if event == "c_call":
             name = getattr(arg, "__name__", "")
+            if granularity == "ccall" and state["armed"] and in_pkg(frame.f_code) == 1:
+                # a C-level call made by repository code (a dependency: OpenSSL verify, sha256 update, fromhex, print ...)
+                cstate["n"] += 1
+                tr.events = cstate["n"]
+                if keep_lines:
+                    tr.lines.append((os.path.basename(frame.f_code.co_filename), frame.f_code.co_name, name))
+                if fault_at is not None and cstate["n"] == fault_at:
+                    state["armed"] = False
+                    raise InjectedFault("injected in place of / at the C call %s() made from %s:%s" % (
+                        name, os.path.basename(frame.f_code.co_filename), frame.f_code.co_name))
             if state["open"] and name not in ALLOWED_IN_WINDOW and os.path.realpath(frame.f_code.co_filename).startswith(pkg_dir):
                 tr.log.append((state["n"], "call-in-window", "builtin " + name))
             if name == "sign":
